@@ -58,5 +58,10 @@ Definition first_symbol_big_enough_for (l : list SymbolSize) (size_needed : N) :
 Definition upper_limit_for_number_of_codewords (l : list SymbolSize) (input_len : N) : option N :=
   match l with
   | [s] => Some (num_data_codewords s)
-  | _ => option_map num_data_codewords (find (fun s => input_len <=? capacity_min s) l)
+  | _ => option_map num_data_codewords
+           (match find (fun s => input_len <=? capacity_min s) l with
+            | Some s => Some s
+            | None => (fix lst (l : list SymbolSize) : option SymbolSize :=      (* .or_else(|| iter().next_back()) *)
+                         match l with [] => None | [x] => Some x | _ :: r => lst r end) l
+            end)
   end.
